@@ -352,6 +352,17 @@ MUTANTS: List[Tuple[str, List[Tuple[str, str, str]], List[Tuple[str, str]]]] = [
      [('C17', 'EX-5'), ('C02', 'EX-6')]),
     ('rt6-retryable-by-its-cause', [(M, "            except retry_policy.exceptions as error:  # noqa: PERF203\n", "            except Exception as error:  # noqa: PERF203\n                if not isinstance(error, retry_policy.exceptions) and not isinstance(error.__cause__, retry_policy.exceptions):\n                    if node.use_default:\n                        return run_node_default(node, **kwargs)\n                    raise\n")],
      [('C12', 'RT-6')]),
+    # ---- round 13 of seeded changes / refactoring round 11 (DESIGN 9.29, 9.30)
+    ('sh12-memo-key-without-the-sub-dag', [(M, "    return hashkey(*args, prefix, **kwargs)", "    return hashkey(args[-1], prefix, **kwargs)")],
+     [('C03', 'SH-12')]),
+    ('st1-iterator-result-stored-as-a-tuple', [(S, "import typing as t\n", "import typing as t\nfrom collections.abc import Iterator\n"),
+                                               (S, "        self.node_results.set(node_id, data)\n", "        if isinstance(data, Iterator):\n            data = tuple(data)\n\n        self.node_results.set(node_id, data)\n")],
+     [('C19', 'ST-1')]),
+    ('vw8-edge-id-with-word-characters-only', [(SC, "        self.id = f'{self.source}->{self.target}'", "        self.id = f'{self.source}->{self.target}'.replace('.', '_').replace(' ', '_')")],
+     [('C20', 'VW-8')]),
+    ('fs-loads-served-from-a-cache', [(F, "        with Path(glob[0]).open(mode, encoding=encoding) as file:  # noqa: ASYNC101\n            return serializer.load(file)\n",
+                                       "        cache = self.__dict__.setdefault('_loaded', {})\n        if node_id not in cache:\n            with Path(glob[0]).open(mode, encoding=encoding) as file:  # noqa: ASYNC101\n                cache[node_id] = serializer.load(file)\n        return cache[node_id]\n")],
+     [('C18', 'FS-9')]),
 ]
 
 ALL_PROPS = [f'C{n:02d}' for n in range(2, 21)]
